@@ -3,15 +3,21 @@
 
   line of wasserstein.py            model
   ---------------------------------------------------------------------------------------------
-  46-65  np.isfinite filter, warn   `finitePart`, `warned`
+  46, 56 np.array(dgm, dtype=float)  — (the model is dtype-free: its numbers are the values of the entries,
+                                     whatever representation the caller used; the conversion was added by
+                                     /repo fix dcbfa71, before it integer inputs overflowed in line 76)
+  47-65  np.isfinite filter, warn   `finitePart`, `warned`
   67-72  (0,0) placeholder          `orPlaceholder`
-  74     pairwise_distances(S, T)   `dist sqrt`            (`sqrt` is a parameter)
-  79-83  rotation by R              `rot cp sp`            (`cp = cos(π/4)`, `sp = sin(π/4)` are parameters)
-  84-92  augmented matrix D         `augEntry`, `augMatrix` (`none` = `np.inf`)
-  95     linear_sum_assignment(D)   the parameter `lsa`    (contract: a minimum-cost perfect assignment
+  76     np.sqrt(np.sum((S[:,None,:] - T[None,:,:])**2, axis=2))
+                                    `dist sqrt` = sqrt (dx*dx + dy*dy), coordinate differences first
+                                    (`sqrt` is a parameter; since /repo fix 6c9bac1 this is the code's own
+                                    operation order — sklearn's expanded form |x|²-2xy+|y|² is gone)
+  81-85  rotation by R              `rot cp sp`            (`cp = cos(π/4)`, `sp = sin(π/4)` are parameters)
+  86-94  augmented matrix D         `augEntry`, `augMatrix` (`none` = `np.inf`)
+  97     linear_sum_assignment(D)   the parameter `lsa`    (contract: a minimum-cost perfect assignment
                                                             whenever one with finite cost exists)
-  96     np.sum(D[matchi, matchj])  `lookup`, `optSum`
-  98-108 matching=True rows         `rowsOf`
+  98     np.sum(D[matchi, matchj])  `lookup`, `optSum`
+  100-110 matching=True rows        `rowsOf`
 
   A death coordinate is `Option α`: `none` = "not finite" (`+∞`, `−∞`, NaN — everything `np.isfinite`
   rejects).  Births are finite values (a non-finite birth is outside the model).
@@ -62,14 +68,14 @@ def orPlaceholder : List (α × α) → List (α × α)
   | [] => [(0, 0)]
   | p :: s => p :: s
 
-/-- line 74: Euclidean distance of two points -/
+/-- line 76: Euclidean distance of two points, from the coordinate differences (`(S - T)**2` summed, then `np.sqrt`) -/
 def dist (sqrt : α → α) (p q : α × α) : α :=
   sqrt ((p.1 - q.1) * (p.1 - q.1) + (p.2 - q.2) * (p.2 - q.2))
 
-/-- lines 81-83: the row vector `(b, d)` times `R = [[cp, -sp], [sp, cp]]` -/
+/-- lines 83-85: the row vector `(b, d)` times `R = [[cp, -sp], [sp, cp]]` -/
 def rot (cp sp : α) (p : α × α) : α × α := (p.1 * cp + p.2 * sp, p.1 * (-sp) + p.2 * cp)
 
-/-- lines 84-92: entry `(i, j)` of the `(M+N) × (M+N)` matrix, `M = |S|`, `N = |T|` -/
+/-- lines 86-94: entry `(i, j)` of the `(M+N) × (M+N)` matrix, `M = |S|`, `N = |T|` -/
 def augEntry (sqrt : α → α) (cp sp : α) (S T : List (α × α)) (i j : Nat) : Option α :=
   if hi : i < S.length then
     if hj : j < T.length then some (dist sqrt S[i] T[j])
@@ -90,10 +96,10 @@ def optAdd : Option α → Option α → Option α
   | some a, some b => some (a + b)
   | _, _ => none
 
-/-- line 96: `np.sum` of the selected entries -/
+/-- line 98: `np.sum` of the selected entries -/
 def optSum (l : List (Option α)) : Option α := l.foldl optAdd (some 0)
 
-/-- lines 99-107: the rows returned with `matching=True` -/
+/-- lines 101-109: the rows returned with `matching=True` -/
 def rowsOf (M N : Nat) (pairs : List (Nat × Nat)) (sel : List (Option α)) :
     List (Int × Int × Option α) :=
   ((pairs.zip sel).map fun (p, d) =>
